@@ -317,3 +317,40 @@ def run(rep):
                                         if VB.shape != (1, len(b)) or not abs(VB[0, j] - exact[k]) <= tol:
                                             viol("AdaptiveInterpolationTable (assign_values): exact for multilinear f", "externally assigned values",
                                                  dict(cfg, x=X[:, k].tolist()), f"got {VB[0, j] if VB.shape == (1, len(b)) else VB.shape}, exact {exact[k]!r}")
+
+
+def replay(data):
+    """Rebuild the recorded table and query natively (standard table obligations)."""
+    import porepy as pp  # noqa
+    from porepy.utils.interpolation_tables import AdaptiveInterpolationTable, InterpolationTable
+
+    inp = data.get("inputs") or {}
+    ob = data.get("obligation") or ""
+    if "function" not in inp or "x" not in inp:
+        return False
+    n = inp["nparam"]
+    coeffs = {s: Fr(0) for s in _subsets(n)}
+    for k, v in inp["function"].items():
+        coeffs[() if k == "const" else tuple(int(i) for i in k.split(","))] = Fr(v)
+    f = MultiLinear(n, coeffs)
+    low, high, npt = np.array(inp["low"], dtype=float), np.array(inp["high"], dtype=float), np.array(inp["npt"])
+    h = (high - low) / (npt - 1)
+    x = np.array(inp["x"], dtype=float)
+    if x.ndim == 1:
+        x = x.reshape(-1, 1)
+    T = InterpolationTable(low, high, npt, f) if not ob.startswith("Adaptive") else AdaptiveInterpolationTable(h, low, f)
+    try:
+        if "gradient" in ob:
+            ax = inp["axis"]
+            got = np.asarray(T.gradient(x.copy(), ax))[0]
+            exp = np.full(x.shape[1], float(f.c.get((ax,), Fr(0))))
+            tol = 1e-8 * (1 + abs(exp).max()) / h[ax]
+        else:
+            got = np.asarray(T.interpolate(x.copy()))[0]
+            exp = np.array([float(f.exact(x[:, k])) for k in range(x.shape[1])])
+            tol = 1e-10 * (1 + abs(exp).max())
+    except Exception as e:  # noqa
+        print("replay: raised", type(e).__name__, e)
+        return True
+    print("replay: got", got.tolist(), "exact", exp.tolist())
+    return bool(np.any(np.abs(got - exp) > tol))
